@@ -203,7 +203,7 @@ u_clone_first!(c12_union_clone_first__tr8_tr8, Tr8, Tr8, Tr8::new());
 u_clone_second!(c12_union_clone_second__tr8_tr8, Tr8, Tr8, Tr8::new());
 // @h props=C12,C05 tier=thorough fuc=ArcUnion::drop,Arc::from_raw,Arc::drop
 u_drop_first!(c12_union_drop_first__tr8_tr8, Tr8, Tr8, Tr8::new(), 1, 1);
-// @h props=C12,C05 fuc=ArcUnion::drop,Arc::from_raw,Arc::drop
+// @h tier=manual props=C12,C05 fuc=ArcUnion::drop,Arc::from_raw,Arc::drop note="runaway in CBMC (37 GB, >15 min) although its siblings take a minute; kept for manual runs only"
 u_drop_second!(c12_union_drop_second__tr8_tr8, Tr8, Tr8, Tr8::new(), 1, 1);
 
 // ---- pair z_s1: ArcUnion<Z, S1>
